@@ -6579,7 +6579,12 @@ impl Nudge {
             return Ok(self.span);
         }
 
+        // Rounding to weeks or larger units in steps of more than one
+        // overshoots the bigger unit by design (28 months in steps of 7 under
+        // years): only a remainder of days or time is carried over.
+        let carry_remainder = smallest <= Unit::Day;
         let smallest = smallest.max(Unit::Day);
+        let mut overshot = false;
         let mut balanced = self.span;
         let sign = balanced.get_sign_ranged();
         let mut unit = smallest;
@@ -6626,9 +6631,33 @@ impl Nudge {
                 self.rounded_relative_end - threshold.as_nanosecond_ranged();
             if beyond == C(0) || beyond.signum() == sign {
                 balanced = span_end;
+                overshot = beyond != C(0);
             } else {
                 break;
             }
+        }
+        if overshot && carry_remainder {
+            // The rounded position lies beyond the start of the bigger unit
+            // it was folded into (one month after January 31 is February 29,
+            // a day before January 31 plus 30 days). What lies beyond must
+            // not be dropped: balance the span again from the rounded
+            // position itself.
+            let start = match relative.kind {
+                RelativeSpanKind::Civil { start, .. } => {
+                    Relative::Civil(start)
+                }
+                RelativeSpanKind::Zoned { ref start, .. } => {
+                    Relative::Zoned(start.borrowed())
+                }
+            };
+            let nanos =
+                (self.rounded_relative_end - start.to_nanosecond()).get();
+            let duration = SignedDuration::new(
+                (nanos / 1_000_000_000) as i64,
+                (nanos % 1_000_000_000) as i32,
+            );
+            let end = start.checked_add_duration(duration)?;
+            balanced = start.until(largest, &end)?;
         }
         Ok(balanced)
     }
